@@ -46,6 +46,7 @@ func cdxFlow(c *Ctx) {
 		c.undecided(R, "cdx-external-reference#anchor", "-", "external-reference loops not found")
 	}
 	identifierSlots(c, wr, rd)
+	subFieldAgreement(c)
 	c.floor(R, 15, "11 component attributes and 4 external-reference fields")
 
 	// document level (textual provenance inside Serialize / Unserialize)
@@ -317,6 +318,14 @@ func attributeIndependence(c *Ctx, label string, attrs []string, w, r flowRel, e
 		if len(r[a]) == 0 {
 			continue // reported by round-trip-path
 		}
+		// a value that reaches the attribute through the object under construction (a helper that
+		// is handed the node, a lookup in the node's own map) makes the relation name every native
+		// field: that is an artefact of the relation, not a dependence of the attribute
+		if len(foreign) > 0 && 2*len(foreign) > len(w) {
+			c.info("%s: %s — relation too coarse to decide independence (%d of %d native fields named)", R, construct, len(foreign), len(w))
+			c.ok(R, construct, "-", a+": flows through the object under construction; not decided here")
+			continue
+		}
 		c.check(len(foreign) == 0, R, construct, "-", a+" ← "+relString(r, a),
 			fmt.Sprintf("the reader's value of %s depends on the native field(s) %s, which the writer does not fill from %s: the attribute no longer round-trips on its own (its value after reading changes with those fields)", a, strings.Join(foreign, ", "), a))
 	}
@@ -372,4 +381,74 @@ func identityAttributePaths(c *Ctx) {
 		}
 	}
 	c.floor(R, 16, "5 component, 3 identifier-slot, 5 package and 3 file attributes")
+}
+
+// subFieldAgreement: the nested native values an attribute is written into (a licence choice, a
+// hash, an external reference) have fields of their own. Whatever field of such a value the writer
+// fills from the node must be a field the reader looks at; content written into a field the reader
+// never reads (license.name when the reader reads license.id and expression only) is lost on the
+// way back although both sides look complete.
+func subFieldAgreement(c *Ctx) {
+	const R = "nested-fields-read-back"
+	nested := map[string]bool{"License": true, "LicenseChoice": true, "Hash": true, "ExternalReference": true}
+	c.rule(R, "for the nested CycloneDX value types License, LicenseChoice, Hash and ExternalReference: every field the serializer fills with a non-constant value is a field some function of the CycloneDX reader reads")
+	isCDX := func(nt *types.Named) bool {
+		return nt != nil && nt.Obj().Pkg() != nil && strings.Contains(nt.Obj().Pkg().Path(), "cyclonedx-go") && nested[nt.Obj().Name()]
+	}
+	// reader: every field of those types selected anywhere in the reader
+	read := map[string]bool{}
+	// (every function of the reader's package: helpers handed around as function values are not
+	// on the static call paths)
+	var readerDecls []*declInfo
+	if rd0 := c.decl(R, cdxUnser); rd0 != nil {
+		for _, file := range rd0.pkg.Syntax {
+			for _, dd := range file.Decls {
+				if fd, isFD := dd.(*ast.FuncDecl); isFD && fd.Body != nil {
+					obj, _ := rd0.pkg.TypesInfo.Defs[fd.Name].(*types.Func)
+					readerDecls = append(readerDecls, &declInfo{fd: fd, pkg: rd0.pkg, obj: obj, name: fd.Name.Name})
+				}
+			}
+		}
+	}
+	for _, d := range readerDecls {
+		ast.Inspect(d.fd.Body, func(n ast.Node) bool {
+			sel, ok := n.(*ast.SelectorExpr)
+			if !ok {
+				return true
+			}
+			si := d.pkg.TypesInfo.Selections[sel]
+			if si == nil || si.Kind() != types.FieldVal {
+				return true
+			}
+			rt := si.Recv()
+			if p, isP := rt.(*types.Pointer); isP {
+				rt = p.Elem()
+			}
+			if nt, isN := rt.(*types.Named); isN && isCDX(nt) {
+				read[nt.Obj().Name()+"."+sel.Sel.Name] = true
+			}
+			return true
+		})
+	}
+	n := 0
+	seen := map[string]bool{}
+	for _, d := range pkgFilter(c.reachDecls(R, cdxSer), "serializers.") {
+		for _, fi := range fieldInits(d.pkg, d.fd.Body) {
+			if !isCDX(fi.owner) {
+				continue
+			}
+			if _, isC := constOf(d.pkg, fi.value); isC {
+				continue
+			}
+			key := fi.owner.Obj().Name() + "." + fi.field.Name()
+			if seen[key] {
+				continue
+			}
+			seen[key] = true
+			n++
+			c.check(read[key], R, "cdx#"+key, c.P.Pos(fi.pos), "written by the serializer, read by the reader",
+				fmt.Sprintf("the serializer writes node content into %s (%s), a field no function of the CycloneDX reader reads: that content does not come back", key, exprText(c.P.Fset, fi.value)))
+		}
+	}
+	c.floor(R, 4, "licence id, hash algorithm and value, external reference fields")
 }
